@@ -105,3 +105,4 @@ MANIFEST = {
     "technique": "runtime monitoring: per-step invariant monitor (mask non-empty, done monotone, bounded progress) on recorded batched episodes",
     "design_ref": "DESIGN.md section 4 / C02",
 }
+MANIFEST["text"] += " Rounds 7-8: exact mTSP step bound with 1-4 agents per row, MCP instances with empty sets, episodes longer than a thousand steps decoded on the policy's default safety cap."
